@@ -473,7 +473,12 @@ type Ptr struct {
 	Sym  *symIdx // when set: Path ends in "[?]" and Sym holds the index bits (read-only table lookup)
 }
 
-type symIdx struct{ bits []*Node }
+type symIdx struct {
+	bits    []*Node
+	mux     bool   // the table's entries are known constants: the lookup is their multiplexer
+	muxBase string // path of the table inside the object
+	cells   map[string]uint64
+}
 
 type SliceV struct {
 	Obj  *MemObj
@@ -600,6 +605,12 @@ type Interp struct {
 	// evaluation comes within two orders of magnitude of the default.
 	Deadline time.Time
 	LastIfaceType types.Type
+	InitFuel int // fuel for the evaluation of a package initialiser (0: the default)
+	// DerivedTables: cells of package-level tables that only their initialiser writes read as the
+	// constants it stores - except the tables named in ReadOnlyTables / SymbolicGlobals, which the
+	// property code compares symbolically with a reference
+	DerivedTables   bool
+	SymbolicGlobals map[string]bool
 	ticks    int
 	late     bool
 }
@@ -764,6 +775,41 @@ func (it *Interp) putAgg(a AggV, path string, v Value) {
 
 // load reads a value of type t at obj/path.
 func (it *Interp) load(st *state, p Ptr, t types.Type) Value {
+	if p.Sym != nil && p.Sym.mux {
+		w, sg, ok := typeWidth(t)
+		if !ok {
+			it.unsup("table lookup of a non-integer element in %s", p.Obj.Name)
+			return OpaqueV{"table"}
+		}
+		n := 1 << uint(len(p.Sym.bits))
+		suffix := strings.TrimPrefix(p.Path, p.Sym.muxBase+"[?]")
+		vals := make([]uint64, n)
+		for k := 0; k < n; k++ {
+			cv, isC := p.Sym.cells[fmt.Sprintf("%s[%d]%s", p.Sym.muxBase, k, suffix)]
+			if !isC {
+				it.unsup("lookup at a symbolic index into %s: entry %d is not a constant the package initialiser stored", strings.TrimPrefix(p.Obj.Name, "global:"), k)
+				return OpaqueV{"table"}
+			}
+			vals[k] = cv
+		}
+		r := BV{W: w, B: make([]*Node, w), Signed: sg}
+		for i := 0; i < w; i++ {
+			// multiplexer tree over the index bits, least significant bit innermost
+			level := make([]*Node, n)
+			for k := 0; k < n; k++ {
+				level[k] = it.T.Const(vals[k]>>uint(i)&1 == 1)
+			}
+			for b := 0; b < len(p.Sym.bits); b++ {
+				next := make([]*Node, len(level)/2)
+				for k := range next {
+					next[k] = it.T.Mux(p.Sym.bits[b], level[2*k+1], level[2*k])
+				}
+				level = next
+			}
+			r.B[i] = level[0]
+		}
+		return r
+	}
 	if p.Sym != nil {
 		w, sg, ok := typeWidth(t)
 		if !ok {
@@ -793,6 +839,18 @@ func (it *Interp) load(st *state, p Ptr, t types.Type) Value {
 	cells := st.mem[p.Obj]
 	if v, ok := cells[p.Path]; ok {
 		return v
+	}
+	if it.DerivedTables && strings.HasPrefix(p.Obj.Name, "global:") && !it.ReadOnlyTables[p.Obj.Name] && !it.SymbolicGlobals[p.Obj.Name] {
+		// a cell of a package-level table that only the package initialiser writes, with a constant
+		if dt := it.derivedTable(p.Obj); dt != nil {
+			if cv, ok := dt[p.Path]; ok {
+				if w, sg, okW := typeWidth(t); okW {
+					r := it.constBV(cv, w)
+					r.Signed = sg
+					return r
+				}
+			}
+		}
 	}
 	if p.Obj.Havoc {
 		if w, _, ok := typeWidth(t); ok {
@@ -1516,6 +1574,9 @@ func (it *Interp) initPackage(st *state, g *ssa.Global) {
 	saveUnsup, saveFuel, saveWrites := it.Unsup, it.Fuel, it.Writes
 	it.Writes = map[string]bool{}
 	it.Fuel = 200000
+	if it.InitFuel > 0 {
+		it.Fuel = it.InitFuel
+	}
 	if guard, ok := p.Members["init$guard"].(*ssa.Global); ok {
 		o := it.globalObj(guard)
 		if st.mem[o] == nil {
@@ -1545,6 +1606,48 @@ func (it *Interp) initPackage(st *state, g *ssa.Global) {
 		}
 	}
 	it.Unsup, it.Fuel, it.Writes = saveUnsup, saveFuel, saveWrites
+}
+
+// derivedTables: per package-level variable, the constant cells its package initialiser leaves in
+// it (nil: not a table of constants, or written outside init).
+var derivedTables = map[*MemObj]map[string]uint64{}
+var derivedTablesDone = map[*MemObj]bool{}
+
+// derivedTable evaluates the initialiser of the variable's package in an interpreter of its own
+// and returns the integer constants it stores into the variable.
+func (it *Interp) derivedTable(o *MemObj) map[string]uint64 {
+	if derivedTablesDone[o] {
+		return derivedTables[o]
+	}
+	derivedTablesDone[o] = true
+	var g *ssa.Global
+	for gg, oo := range globalObjs {
+		if oo == o {
+			g = gg
+		}
+	}
+	if g == nil || g.Pkg == nil || !IsRepoPkg(g.Pkg.Pkg) || writtenGlobals(it.w)[g] {
+		return nil
+	}
+	sub := NewInterp(it.w)
+	sub.UseInitValues = true
+	sub.InitFuel = 20000000 // a table computed by loops (256 entries of a few hundred steps each)
+	sub.MaxDepth = 400
+	st := sub.NewState()
+	sub.initPackage(st, g)
+	cells := map[string]uint64{}
+	for path, v := range st.mem[o] {
+		if bv, ok := v.(BV); ok && !bv.HasTop() {
+			if cv, isC := bv.IsConst(); isC {
+				cells[path] = cv
+			}
+		}
+	}
+	if len(cells) == 0 {
+		return nil
+	}
+	derivedTables[o] = cells
+	return cells
 }
 
 func (it *Interp) globalObj(g *ssa.Global) *MemObj {
@@ -1626,8 +1729,18 @@ func (it *Interp) step(st *state, ins ssa.Instruction, depth int) {
 		if !ok {
 			if p, isPtr := it.val(st, x.X).(Ptr); isPtr && p.Sym == nil && it.ReadOnlyTables[p.Obj.Name] {
 				if bits, ok := it.tableIndex(st, x); ok {
-					st.regs[x] = Ptr{Obj: p.Obj, Path: p.Path + "[?]", Sym: &symIdx{bits}}
+					st.regs[x] = Ptr{Obj: p.Obj, Path: p.Path + "[?]", Sym: &symIdx{bits: bits}}
 					return
+				}
+			}
+			if p, isPtr := it.val(st, x.X).(Ptr); isPtr && p.Sym == nil && strings.HasPrefix(p.Obj.Name, "global:") {
+				// a table the package initialiser filled with constants and nothing else writes (a
+				// derived lookup table): the element at a symbolic index is the multiplexer over its entries
+				if cells := it.derivedTable(p.Obj); cells != nil {
+					if bits, ok := it.tableIndex(st, x); ok && len(bits) <= 8 {
+						st.regs[x] = Ptr{Obj: p.Obj, Path: p.Path + "[?]", Sym: &symIdx{bits: bits, muxBase: p.Path, mux: true, cells: cells}}
+						return
+					}
 				}
 			}
 			if p, isPtr := it.val(st, x.X).(Ptr); isPtr && strings.HasPrefix(p.Obj.Name, "global:") {
